@@ -1,8 +1,8 @@
 /-
   Impl.Drg — code-shaped model of src/drg/chacha.rs: `Drg<R>(ChaCha<R>)`.
-  `bytes::<N>` runs the cipher over a fresh zero array; `fill_bytes`/`fill_slice` run it over the CALLER's
-  buffer (AS IS: the keystream is XORed into whatever the buffer held).  `…Fixed` = overwrite semantics
-  (the repaired behaviour: zero the buffer first).
+  `bytes::<N>` runs the cipher over a fresh zero array; `fill_bytes`/`fill_slice` zero the caller's buffer and
+  run the cipher over it.  `…Old` = the behaviour before /repo commit 1b3253e (keystream XORed into whatever
+  the buffer held), kept for the witness theorems.
 -/
 import CxVerif.Impl.ChaCha
 namespace Cx.Impl.Drg
@@ -18,19 +18,20 @@ def new (E : Engine σ) (R : Nat) (seed : Bytes) : Except String (Ctx σ) :=
 def bytes (E : Engine σ) (R : Nat) (c : Ctx σ) (N : Nat) : Except String (Ctx σ × Bytes) :=
   ChaCha.process_mut E R c (zeros N)
 
-/-- `fill_bytes::<N>(out)` AS IS: `self.0.process_mut(out)` -/
+/-- `fill_bytes::<N>(out)` : `*out = [0; N]; self.0.process_mut(out)` (as repaired by /repo commit 1b3253e) -/
 def fill_bytes (E : Engine σ) (R : Nat) (c : Ctx σ) (out : Bytes) : Except String (Ctx σ × Bytes) :=
-  ChaCha.process_mut E R c out
+  ChaCha.process_mut E R c (zeros out.length)
 
-/-- `fill_slice(out)` AS IS -/
+/-- `fill_slice(out)` : `out.fill(0); self.0.process_mut(out)` -/
 def fill_slice (E : Engine σ) (R : Nat) (c : Ctx σ) (out : Bytes) : Except String (Ctx σ × Bytes) :=
-  ChaCha.process_mut E R c out
+  ChaCha.process_mut E R c (zeros out.length)
 
-/-- repaired `fill_bytes` / `fill_slice`: the destination is zeroed before the cipher runs over it -/
-def fill_bytesFixed (E : Engine σ) (R : Nat) (c : Ctx σ) (out : Bytes) : Except String (Ctx σ × Bytes) :=
-  ChaCha.process_mut E R c (zeros out.length)
-def fill_sliceFixed (E : Engine σ) (R : Nat) (c : Ctx σ) (out : Bytes) : Except String (Ctx σ × Bytes) :=
-  ChaCha.process_mut E R c (zeros out.length)
+/-- `fill_bytes` / `fill_slice` BEFORE the repair (defect b): the cipher ran over the caller's buffer, i.e. the
+    keystream was XORed into whatever the buffer held.  Kept for the witness theorems. -/
+def fill_bytesOld (E : Engine σ) (R : Nat) (c : Ctx σ) (out : Bytes) : Except String (Ctx σ × Bytes) :=
+  ChaCha.process_mut E R c out
+def fill_sliceOld (E : Engine σ) (R : Nat) (c : Ctx σ) (out : Bytes) : Except String (Ctx σ × Bytes) :=
+  ChaCha.process_mut E R c out
 
 /-- `u64()` = `u64::from_be_bytes(self.bytes())` -/
 def u64 (E : Engine σ) (R : Nat) (c : Ctx σ) : Except String (Ctx σ × UInt64) :=
@@ -60,25 +61,26 @@ inductive Out where
   | w64 (v : UInt64)
 deriving Repr, DecidableEq
 
-def step (E : Engine σ) (R : Nat) (fixed : Bool) (c : Ctx σ) : Req → Except String (Ctx σ × Out)
+def step (E : Engine σ) (R : Nat) (old : Bool) (c : Ctx σ) : Req → Except String (Ctx σ × Out)
   | .bytes N => match bytes E R c N with
     | .ok (c, b) => .ok (c, .buf b) | .error e => .error e
-  | .fillBytes p => match (if fixed then fill_bytesFixed E R c p else fill_bytes E R c p) with
+  | .fillBytes p => match (if old then fill_bytesOld E R c p else fill_bytes E R c p) with
     | .ok (c, b) => .ok (c, .buf b) | .error e => .error e
-  | .fillSlice p => match (if fixed then fill_sliceFixed E R c p else fill_slice E R c p) with
+  | .fillSlice p => match (if old then fill_sliceOld E R c p else fill_slice E R c p) with
     | .ok (c, b) => .ok (c, .buf b) | .error e => .error e
   | .u32 => match u32 E R c with
     | .ok (c, v) => .ok (c, .w32 v) | .error e => .error e
   | .u64 => match u64 E R c with
     | .ok (c, v) => .ok (c, .w64 v) | .error e => .error e
 
-def run (E : Engine σ) (R : Nat) (fixed : Bool) (c : Ctx σ) : List Req → Except String (Ctx σ × List Out)
+/-- `old = true` selects the pre-repair `fill_*` (witness theorems only) -/
+def run (E : Engine σ) (R : Nat) (old : Bool) (c : Ctx σ) : List Req → Except String (Ctx σ × List Out)
   | [] => .ok (c, [])
   | r :: rs =>
-    match step E R fixed c r with
+    match step E R old c r with
     | .error e => .error e
     | .ok (c, o) =>
-      match run E R fixed c rs with
+      match run E R old c rs with
       | .error e => .error e
       | .ok (c, os) => .ok (c, o :: os)
 
